@@ -56,7 +56,22 @@ def lifecycle_history(rng, n, insts, tc, with_find=True, with_sub=False, ann0=No
         r = rng.random()
         if t == cl_t and r < 0.44:
             r = 0.9      # the connection loss is applied one iteration later: no life-cycle call in that window
-        if r < 0.32:
+        if started and with_find and not with_sub and r < 0.10:
+            # several requests from ONE requester whose answers are still pending when the offer is withdrawn
+            src = rng.choice(["a1", "a2"])
+            for _ in range(rng.choice([2, 2, 3])):
+                mc = rng.random() < 0.6
+                sid, rb = sids.next(src, mc)
+                sched.append({"t": t, "j": j, "op": "rx", "src": src, "mc": mc, "sid": sid, "rb": rb, "uc": True,
+                              "es": [{"ty": "find", "svc": rng.choice(["f1", "f1", "f1x", "fz"]), "ttl": 3, "opts": []}]})
+            if rng.random() < 0.5 and len(insts) > 1 and ann:
+                i = rng.choice(ann)
+                ann.remove(i)
+                sched.append({"t": t, "j": j, "op": "stop_announce", "inst": i})
+            else:
+                sched.append({"t": t, "j": j, "op": "ann_stop"})
+                started = False
+        elif r < 0.32:
             if started:
                 sched.append({"t": t, "j": j, "op": "ann_stop"})
                 started = False
